@@ -1,7 +1,7 @@
 package main
 
 // Reference side of C01: the alphabet, the "does entry X handle (method, path)?" table obtained
-// from the REAL per-route matcher on route objects of single-route apps, and the ~60-line linear
+// from the REAL per-route matcher on route objects of single-registration apps, and the linear
 // reference dispatcher (no bucket map, no cursor).
 
 import (
@@ -24,12 +24,57 @@ const (
 	// (Registering.Add, Group.Add) and only occur in the same-path family
 	kRTADD // app.Route(p).Add([GET, POST], ...)
 	kGRALL // app.Group("/").All(p, ...)
+	// ---- kinds of the side families (side.go) ----
+	// methods family: every other method of the default list through its own registration method, an extension
+	// method (only valid under a configuration whose RequestMethods names it) and lower-case method names
+	kHEAD
+	kPUT
+	kDELETE
+	kCONNECT
+	kOPTIONS
+	kTRACE
+	kPATCH
+	kPURGE  // app.Add([]string{"PURGE"}, p, ...)
+	kADDLOW // app.Add([]string{"get", "delete"}, p, ...)
+	// registration-site family
+	kUSE0     // app.Use(h...): no prefix argument (the entry's pattern is not used; alphabets pair it with "/" only)
+	kUSEMULTI // app.Use([]string{p, "/x"}, h...): two prefixes = two routes per method stack, one handler slice
+	kRTGET    // app.Route(p).Get(h...)
+	kRTALL    // app.Route(p).All(h...): a middleware registration
+	kGMW      // app.Group(p, h...): the group's own middleware, no route in it
+	kGUSE     // app.Group("/ab").Use(p, h...)
+	kNOSLASH  // app.Get(p without its leading slash, h...)
 	nKinds
 )
 
 const nFullKinds = kGRP + 1
 
-var kindNames = [nKinds]string{"GET", "POST", "USE", "ALL", "GROUP(/ab).GET", "ROUTE(p).ADD[GET,POST]", "GROUP(/).ALL"}
+var kindNames = [nKinds]string{"GET", "POST", "USE", "ALL", "GROUP(/ab).GET", "ROUTE(p).ADD[GET,POST]", "GROUP(/).ALL",
+	"HEAD", "PUT", "DELETE", "CONNECT", "OPTIONS", "TRACE", "PATCH", "ADD[PURGE]", "ADD[get,delete]",
+	"USE(no-prefix)", "USE([p,/x])", "ROUTE(p).GET", "ROUTE(p).ALL", "GROUP(p,mw)", "GROUP(/ab).USE", "GET(p-without-slash)"}
+
+// kindMethod: the method name a kind needs in the configuration's RequestMethods ("" = none in particular).
+var kindMethod = [nKinds]string{kHEAD: "HEAD", kPUT: "PUT", kDELETE: "DELETE", kCONNECT: "CONNECT", kOPTIONS: "OPTIONS",
+	kTRACE: "TRACE", kPATCH: "PATCH", kPURGE: "PURGE", kPOST: "POST", kGET: "GET", kGRP: "GET", kRTGET: "GET", kNOSLASH: "GET"}
+
+// kindIsUse: the registration is a middleware (prefix match, never an endpoint).
+func kindIsUse(k uint8) bool {
+	switch k {
+	case kUSE, kUSE0, kUSEMULTI, kRTALL, kGMW, kGUSE:
+		return true
+	}
+	return false
+}
+
+// kindUnits: number of routes ONE registration call of this kind creates per method stack.
+func kindUnits(k uint8) int {
+	if k == kUSEMULTI {
+		return 2
+	}
+	return 1
+}
+
+const maxUnits = 2
 
 // chainLens: number of handlers passed in ONE registration call (entry.cl indexes it). All but the last are
 // plain Next() pass-throughs, the last one has the entry's behaviour. 5 is the smallest length at which the
@@ -49,10 +94,31 @@ const (
 	bPathABC
 	bPathX
 	bMethPost
+	// behaviours of the full alphabet end here; the ones below only occur in the side families
+	bPathUpper    // Path("/ABC")+Next: override target that needs case folding
+	bPathSlash    // Path("/abc/")+Next: ... trailing-slash trimming (non-strict)
+	bPathEscaped  // Path("/%61bc")+Next: ... unescaping (UnescapePath)
+	bPathShort    // Path("/a")+Next: target shorter than the 3-byte bucket key
+	bPathShortSl  // Path("/a/")+Next: 3 bytes only before trimming
+	bMethDelete   // Method("DELETE")+Next: a method stack beyond GET/HEAD/POST/PUT
+	bMethInvalid  // Method("BREW")+Next: not a method of the app: documented as "no override"
+	bPathXMethPst // Path("/x") and Method("POST") in ONE handler, then Next
+	bError        // return fiber.NewError(403) without calling Next
 	nBeh
 )
 
-var behNames = [nBeh]string{"reply", "Next", `Path("/abc")+Next`, `Path("/x")+Next`, `Method("POST")+Next`}
+const nFullBeh = bMethPost + 1
+
+var behNames = [nBeh]string{"reply", "Next", `Path("/abc")+Next`, `Path("/x")+Next`, `Method("POST")+Next`,
+	`Path("/ABC")+Next`, `Path("/abc/")+Next`, `Path("/%61bc")+Next`, `Path("/a")+Next`, `Path("/a/")+Next`,
+	`Method("DELETE")+Next`, `Method("BREW")+Next`, `Path("/x")+Method("POST")+Next`, "return Error(403)"}
+
+// behPathTarget / behMethTarget: the override a behaviour performs ("" = none).
+var (
+	behPathTarget = [nBeh]string{bPathABC: "/abc", bPathX: "/x", bPathUpper: "/ABC", bPathSlash: "/abc/", bPathEscaped: "/%61bc",
+		bPathShort: "/a", bPathShortSl: "/a/", bPathXMethPst: "/x"}
+	behMethTarget = [nBeh]string{bMethPost: "POST", bMethDelete: "DELETE", bMethInvalid: "BREW", bPathXMethPst: "POST"}
+)
 
 // patterns are chosen around the 3-byte bucket key: first constant shorter than / equal to / longer
 // than 3 bytes, with and without optional slash, case-folded, escaped, plus the two rewrite targets.
@@ -62,7 +128,14 @@ var patterns = []string{
 	// unescaped / escaped twins of `/ab\:c` and "/a/*": same text once the escape characters are removed,
 	// different routes (parameter vs. literal ':' / '*')
 	"/ab:c", `/a/\*`,
+	// ---- patterns of the side families only (not in the full alphabet) ----
+	// escape character inside the first three bytes of the constant (the bucket key must be built from the text
+	// without it)
+	`/a\:b`,
 }
+
+// nFullPatterns: the patterns of the full alphabet (the main product never grows when a side family adds one).
+const nFullPatterns = 20
 
 // Same-path / multi-method family (both tiers): every table of exactly 3 entries over
 // famKinds x famPatterns x famBehs x chainLens. The two patterns are an escaped/unescaped twin pair, so that
@@ -84,26 +157,66 @@ var subReqPaths = []string{"/", "/a", "/a/", "/ab", "/abc", "/abc/", "/ABC", "/a
 var reqPaths = []string{
 	"/", "/a", "/a/", "/ab", "/ab/", "/abc", "/abc/", "/ABC", "/abcd", "/abc/d", "/abc/d/", "/x",
 	"/a%20b", "/%61bc", "//", "/ab:c", "/ab/a", "/a/x", "/a/*",
+	// ---- request paths of the side families only ----
+	"/a:b",
 }
 
-// request methods as indices into fiber.DefaultMethods
+// nFullReqPaths: the request paths of the main product.
+const nFullReqPaths = 19
+
+// Method universe: every method name a request or an Allow header can carry in this harness, in the order of
+// the request-method ids ("rm"). The main product fires the first four. Stack indices ("m") are positions in
+// the RequestMethods list of the configuration at hand and differ between configurations.
+var methUniverse = []string{"GET", "POST", "HEAD", "PUT", "DELETE", "CONNECT", "OPTIONS", "TRACE", "PATCH", "PURGE"}
+
 const (
-	mGET  = 0
-	mHEAD = 1
-	mPOST = 2
-	mPUT  = 3
-	nMeth = 9
+	rmGET = iota
+	rmPOST
+	rmHEAD
+	rmPUT
+	rmDELETE
 )
 
-var reqMethods = []int{mGET, mPOST, mHEAD, mPUT}
+// nMeth bounds the number of method stacks of any configuration.
+const nMeth = 10
 
-type cfgT struct{ CaseSensitive, StrictRouting, UnescapePath bool }
+var mainReqMethods = []int{rmGET, rmPOST, rmHEAD, rmPUT}
 
-var cfgs [8]cfgT
+// methodLists: the RequestMethods settings. 0 = not configured (fiber's default list and its switch-based
+// method lookup), 1 = the default list plus an extension method, 2 = a shorter list in another order that
+// starts with the extension method.
+var methodLists = [][]string{
+	nil,
+	append(append([]string{}, fiber.DefaultMethods...), "PURGE"),
+	{"PURGE", "PATCH", "POST", "DELETE", "GET", "HEAD"},
+}
+
+type cfgT struct {
+	CaseSensitive, StrictRouting, UnescapePath bool
+	Methods                                    int `json:",omitempty"` // index into methodLists
+}
+
+// cfgs: the 8 routing configurations of the main product, then (side families) the two custom method lists
+// under the all-default and the all-set routing flags.
+var cfgs []cfgT
+
+const nMainCfgs = 8
+
+var mainCfgIdx, allCfgIdx, customMethodCfgIdx []int
 
 func init() {
+	for i := 0; i < nMainCfgs; i++ {
+		cfgs = append(cfgs, cfgT{i&1 != 0, i&2 != 0, i&4 != 0, 0})
+		mainCfgIdx = append(mainCfgIdx, i)
+	}
+	for ml := 1; ml < len(methodLists); ml++ {
+		for _, f := range []bool{false, true} {
+			customMethodCfgIdx = append(customMethodCfgIdx, len(cfgs))
+			cfgs = append(cfgs, cfgT{f, f, f, ml})
+		}
+	}
 	for i := range cfgs {
-		cfgs[i] = cfgT{i&1 != 0, i&2 != 0, i&4 != 0}
+		allCfgIdx = append(allCfgIdx, i)
 	}
 }
 
@@ -120,7 +233,8 @@ func errStatus(c fiber.Ctx, err error) error {
 }
 
 func (c cfgT) fiber() fiber.Config {
-	return fiber.Config{CaseSensitive: c.CaseSensitive, StrictRouting: c.StrictRouting, UnescapePath: c.UnescapePath, ErrorHandler: errStatus}
+	return fiber.Config{CaseSensitive: c.CaseSensitive, StrictRouting: c.StrictRouting, UnescapePath: c.UnescapePath,
+		RequestMethods: methodLists[c.Methods], ErrorHandler: errStatus}
 }
 
 // entry is one registration call: kind of call, pattern, behaviour of its last handler, and cl = index into
@@ -148,26 +262,62 @@ func (e entry) String() string {
 		return fmt.Sprintf("app.Route(%q).Add([GET POST], %s)", p, hs)
 	case kGRALL:
 		return fmt.Sprintf("app.Group(\"/\").All(%q, %s)", p, hs)
+	case kHEAD, kPUT, kDELETE, kCONNECT, kOPTIONS, kTRACE, kPATCH:
+		n := kindNames[e.kind]
+		return fmt.Sprintf("app.%s%s(%q, %s)", n[:1], lower(n[1:]), p, hs)
+	case kPURGE:
+		return fmt.Sprintf("app.Add([PURGE], %q, %s)", p, hs)
+	case kADDLOW:
+		return fmt.Sprintf("app.Add([get delete], %q, %s)", p, hs)
+	case kUSE0:
+		return fmt.Sprintf("app.Use(%s)", hs)
+	case kUSEMULTI:
+		return fmt.Sprintf("app.Use([%q \"/x\"], %s)", p, hs)
+	case kRTGET:
+		return fmt.Sprintf("app.Route(%q).Get(%s)", p, hs)
+	case kRTALL:
+		return fmt.Sprintf("app.Route(%q).All(%s)", p, hs)
+	case kGMW:
+		return fmt.Sprintf("app.Group(%q, %s)", p, hs)
+	case kGUSE:
+		return fmt.Sprintf("app.Group(\"/ab\").Use(%q, %s)", p, hs)
+	case kNOSLASH:
+		return fmt.Sprintf("app.Get(%q, %s)", p[1:], hs)
 	}
 	return fmt.Sprintf("app.Get(%q, %s)", p, hs)
+}
+
+func lower(s string) string {
+	b := []byte(s)
+	for i := range b {
+		if b[i] >= 'A' && b[i] <= 'Z' {
+			b[i] += 'a' - 'A'
+		}
+	}
+	return string(b)
 }
 
 // register performs the registration of one entry on app with the handler chain hs (len >= 1).
 func register(app *fiber.App, e entry, hs []fiber.Handler) {
 	p := patterns[e.pat]
 	h, rest := hs[0], hs[1:]
+	useArgs := func(first any) []any {
+		args := make([]any, 0, len(hs)+1)
+		if first != nil {
+			args = append(args, first)
+		}
+		for _, x := range hs {
+			args = append(args, x)
+		}
+		return args
+	}
 	switch e.kind {
 	case kGET:
 		app.Get(p, h, rest...)
 	case kPOST:
 		app.Post(p, h, rest...)
 	case kUSE:
-		args := make([]any, 0, len(hs)+1)
-		args = append(args, p)
-		for _, x := range hs {
-			args = append(args, x)
-		}
-		app.Use(args...)
+		app.Use(useArgs(p)...)
 	case kALL:
 		app.All(p, h, rest...)
 	case kGRP:
@@ -176,36 +326,114 @@ func register(app *fiber.App, e entry, hs []fiber.Handler) {
 		app.Route(p).Add([]string{fiber.MethodGet, fiber.MethodPost}, h, rest...)
 	case kGRALL:
 		app.Group("/").All(p, h, rest...)
+	case kHEAD:
+		app.Head(p, h, rest...)
+	case kPUT:
+		app.Put(p, h, rest...)
+	case kDELETE:
+		app.Delete(p, h, rest...)
+	case kCONNECT:
+		app.Connect(p, h, rest...)
+	case kOPTIONS:
+		app.Options(p, h, rest...)
+	case kTRACE:
+		app.Trace(p, h, rest...)
+	case kPATCH:
+		app.Patch(p, h, rest...)
+	case kPURGE:
+		app.Add([]string{"PURGE"}, p, h, rest...)
+	case kADDLOW:
+		app.Add([]string{"get", "delete"}, p, h, rest...)
+	case kUSE0:
+		app.Use(useArgs(nil)...)
+	case kUSEMULTI:
+		app.Use(useArgs([]string{p, "/x"})...)
+	case kRTGET:
+		app.Route(p).Get(h, rest...)
+	case kRTALL:
+		app.Route(p).All(h, rest...)
+	case kGMW:
+		// (Group keeps the variadic slice itself as the route's handler list: hand it a slice of its own, as a
+		// call with handlers spelled out would; hs is the worker's reusable buffer)
+		app.Group(p, append([]fiber.Handler(nil), hs...)...)
+	case kGUSE:
+		app.Group("/ab").Use(useArgs(p)...)
+	case kNOSLASH:
+		app.Get(p[1:], h, rest...)
 	}
 }
 
 // ---- "handles" table from the real matcher ---------------------------------------------------
 
 var (
-	idxABC, idxX int
 	// per config and path index
-	pathDet   [8][]string
-	pathPath  [8][]string
-	pathHash  [8][]int
-	pathCanon [8][]uint8 // smallest index with the same (detection, path): "same path" for the router
-	// handles[cfg][kind][pat][method] = bitmask over canonical path indices
-	handles [8][nKinds][][nMeth]uint32
-	// loneKey[cfg][kind][pat][method] = key of the specific bucket the entry's route sits in (0 = global / no route)
-	loneKey [8][nKinds][][nMeth]int
+	pathDet   [][]string
+	pathPath  [][]string
+	pathHash  [][]int
+	pathCanon [][]uint8 // smallest index with the same (detection, path): "same path" for the router
+	// per config: method names by stack index, stack index by request-method id (-1: not a method of the app)
+	mlist    [][]string
+	stackIdx [][]int
+	// kindValid[cfg][kind]: the registration is possible under the configuration's method list
+	kindValid [][nKinds]bool
+	// handles[cfg][kind][pat][unit][method] = bitmask over canonical path indices
+	handles [][nKinds][][maxUnits][nMeth]uint32
+	// loneKey[cfg][kind][pat][unit][method] = key of the specific bucket the entry's route sits in (0 = global / no route)
+	loneKey [][nKinds][][maxUnits][nMeth]int
+	// behPathIdx[beh] = index in reqPaths of the path-override target (-1 = none)
+	behPathIdx [nBeh]int
 )
 
-func buildTables() {
-	for i, p := range reqPaths {
-		if p == "/abc" {
-			idxABC = i
-		}
-		if p == "/x" {
-			idxX = i
+func rawIdx(p string) int {
+	for i, q := range reqPaths {
+		if p == q {
+			return i
 		}
 	}
+	core.Fatal("path %q is not in the request path table", p)
+	return -1
+}
+
+func buildTables() {
+	for b := range behPathIdx {
+		behPathIdx[b] = -1
+		if t := behPathTarget[b]; t != "" {
+			behPathIdx[b] = rawIdx(t)
+		}
+	}
+	n := len(cfgs)
+	pathDet, pathPath, pathHash, pathCanon = make([][]string, n), make([][]string, n), make([][]int, n), make([][]uint8, n)
+	mlist, stackIdx, kindValid = make([][]string, n), make([][]int, n), make([][nKinds]bool, n)
+	handles = make([][nKinds][][maxUnits][nMeth]uint32, n)
+	loneKey = make([][nKinds][][maxUnits][nMeth]int, n)
 	nop := func(c fiber.Ctx) error { return nil }
 	for ci, c := range cfgs {
 		papp := fiber.New(c.fiber())
+		mlist[ci] = append([]string{}, papp.Config().RequestMethods...)
+		if len(mlist[ci]) > nMeth || len(mlist[ci]) != len(papp.Stack()) {
+			core.Fatal("config %d: %d methods, %d stacks", ci, len(mlist[ci]), len(papp.Stack()))
+		}
+		stackIdx[ci] = make([]int, len(methUniverse))
+		for u, name := range methUniverse {
+			stackIdx[ci][u] = -1
+			for m, x := range mlist[ci] {
+				if x == name {
+					stackIdx[ci][u] = m
+				}
+			}
+		}
+		for m, x := range mlist[ci] { // every method of the app must be nameable in an Allow header
+			if fiber.VerifMethodInt(papp, x) != m {
+				core.Fatal("config %d: method %s is not at stack index %d", ci, x, m)
+			}
+			found := false
+			for _, name := range methUniverse {
+				found = found || name == x
+			}
+			if !found {
+				core.Fatal("method %s is not in the method universe", x)
+			}
+		}
 		for _, raw := range reqPaths {
 			d, p, h := fiber.VerifPaths(papp, raw)
 			pathDet[ci] = append(pathDet[ci], d)
@@ -223,29 +451,41 @@ func buildTables() {
 			}
 		}
 		for k := 0; k < nKinds; k++ {
-			handles[ci][k] = make([][nMeth]uint32, len(patterns))
-			loneKey[ci][k] = make([][nMeth]int, len(patterns))
+			handles[ci][k] = make([][maxUnits][nMeth]uint32, len(patterns))
+			loneKey[ci][k] = make([][maxUnits][nMeth]int, len(patterns))
+			kindValid[ci][k] = true
+			if need := kindMethod[k]; need != "" {
+				kindValid[ci][k] = fiber.VerifMethodInt(papp, need) >= 0
+			}
+			if k == kADDLOW {
+				kindValid[ci][k] = fiber.VerifMethodInt(papp, "GET") >= 0 && fiber.VerifMethodInt(papp, "DELETE") >= 0
+			}
+			if k == kRTADD {
+				kindValid[ci][k] = fiber.VerifMethodInt(papp, "GET") >= 0 && fiber.VerifMethodInt(papp, "POST") >= 0
+			}
+			if !kindValid[ci][k] {
+				continue
+			}
 			for pi := range patterns {
 				// the entry ALONE in a fresh app: "individually matches", independent of any other route
 				app := fiber.New(c.fiber())
 				register(app, entry{uint8(k), uint8(pi), bReply, 0}, []fiber.Handler{nop})
 				app.Handler()
 				stack := app.Stack()
-				if len(stack) != nMeth {
-					core.Fatal("unexpected number of method stacks: %d", len(stack))
-				}
-				for m := 0; m < nMeth; m++ {
-					if len(stack[m]) > 1 {
-						core.Fatal("single registration produced %d routes for one method", len(stack[m]))
+				for m := range stack {
+					if len(stack[m]) > kindUnits(uint8(k)) {
+						core.Fatal("single registration of kind %s produced %d routes for one method", kindNames[k], len(stack[m]))
 					}
-					for _, rt := range stack[m] {
+					for u := 0; u < kindUnits(uint8(k)) && len(stack[m]) > 0; u++ {
+						// (a call with the same prefix twice is merged into one route object holding the handlers twice)
+						rt := stack[m][min(u, len(stack[m])-1)]
 						use, _, _ := fiber.VerifRouteFlags(rt)
-						if use != (k == kUSE) {
+						if use != kindIsUse(uint8(k)) {
 							core.Fatal("use flag of %v is %v", entry{uint8(k), uint8(pi), 0, 0}, use)
 						}
 						for i := range reqPaths {
 							if fiber.VerifRouteMatch(rt, pathDet[ci][i], pathPath[ci][i]) {
-								handles[ci][k][pi][m] |= 1 << pathCanon[ci][i]
+								handles[ci][k][pi][u][m] |= 1 << pathCanon[ci][i]
 							}
 						}
 						tree := fiber.VerifTree(app, m)
@@ -258,7 +498,7 @@ func buildTables() {
 							}
 						}
 						if len(keys) == 1 && keys[0] != 0 {
-							loneKey[ci][k][pi][m] = keys[0]
+							loneKey[ci][k][pi][u][m] = keys[0]
 						}
 					}
 				}
@@ -267,64 +507,88 @@ func buildTables() {
 	}
 }
 
+// unitHandles: does the u-th route of entry e individually match (method stack m, canonical path p)?
+func unitHandles(ci int, e entry, u, m, p int) bool {
+	return handles[ci][e.kind][e.pat][u][m]&(1<<uint(p)) != 0
+}
+
+// entryHandles: does any route of entry e individually match?
 func entryHandles(ci int, e entry, m, p int) bool {
-	return handles[ci][e.kind][e.pat][m]&(1<<uint(p)) != 0
+	return (handles[ci][e.kind][e.pat][0][m]|handles[ci][e.kind][e.pat][1][m])&(1<<uint(p)) != 0
 }
 
 // ---- the reference dispatcher -----------------------------------------------------------------
 
-const maxTrace = 24
+const (
+	maxTrace = 24
+	maxRef   = 6
+)
 
 type refResult struct {
 	n      int
-	trace  [4]uint8 // positions (indices into the table) of the handlers that run, in order
-	eff    [4]uint8 // per step: 0 = no effective override, 1 = path changed, 2 = method changed
-	stM    [5]uint8 // method before step k (stM[n] = final)
-	stP    [5]uint8 // canonical path index before step k (stP[n] = final)
-	reply  bool     // chain ended with a reply (status 200)
-	spec   bool     // end of chain: status/Allow are specified by the statement
+	trace  [maxRef]uint8     // positions (indices into the table) of the handlers that run, in order
+	eff    [maxRef]uint8     // per step: 0 = no effective override, 1 = path changed, 2 = method changed, 3 = both
+	stM    [maxRef + 1]uint8 // method before step k (stM[n] = final)
+	stP    [maxRef + 1]uint8 // canonical path index before step k (stP[n] = final)
+	reply  bool              // chain ended with a reply (status 200)
+	failed bool              // chain ended with a handler returning an error without calling Next (status not judged)
+	spec   bool              // end of chain: status/Allow are specified by the statement
 	status int
-	allow  uint16 // bit per method index
+	allow  uint16 // bit per method stack index
 }
 
 // refDispatch is the specification: a linear scan over the registration list in registration
 // order. Entry i runs iff it individually handles the CURRENT (method, path) and its predecessor
 // called Next; after an override the scan simply continues with the later-registered entries under
-// the new method/path. No bucket map, no cursor into a per-bucket slice.
+// the new method/path. No bucket map, no cursor into a per-bucket slice. (A registration call with two
+// prefixes is two consecutive routes.)
 func refDispatch(ci int, tbl []entry, m, p int) (r refResult) {
 	ranEndpoint := false
 	for i, e := range tbl {
-		if !entryHandles(ci, e, m, p) {
-			continue
-		}
-		r.stM[r.n], r.stP[r.n] = uint8(m), uint8(p)
-		r.trace[r.n] = uint8(i)
-		if e.kind != kUSE {
-			ranEndpoint = true
-		}
-		switch e.beh {
-		case bReply:
-			r.n++
+		for u := 0; u < kindUnits(e.kind); u++ {
+			if !unitHandles(ci, e, u, m, p) {
+				continue
+			}
+			if r.n == maxRef {
+				core.Fatal("reference trace longer than %d: %v", maxRef, tbl)
+			}
 			r.stM[r.n], r.stP[r.n] = uint8(m), uint8(p)
-			r.reply, r.spec, r.status = true, true, 200
-			return r
-		case bPathABC, bPathX:
-			np := idxABC
-			if e.beh == bPathX {
-				np = idxX
+			r.trace[r.n] = uint8(i)
+			if !kindIsUse(e.kind) {
+				ranEndpoint = true
 			}
-			np = int(pathCanon[ci][np])
-			if np != p {
-				r.eff[r.n] = 1
+			switch e.beh {
+			case bReply:
+				r.n++
+				r.stM[r.n], r.stP[r.n] = uint8(m), uint8(p)
+				r.reply, r.spec, r.status = true, true, 200
+				return r
+			case bError:
+				r.n++
+				r.stM[r.n], r.stP[r.n] = uint8(m), uint8(p)
+				r.failed = true
+				return r
 			}
-			p = np
-		case bMethPost:
-			if m != mPOST {
-				r.eff[r.n] = 2
+			if t := behPathIdx[e.beh]; t >= 0 {
+				np := int(pathCanon[ci][t])
+				if np != p {
+					r.eff[r.n] |= 1
+				}
+				p = np
 			}
-			m = mPOST
+			if t := behMethTarget[e.beh]; t != "" {
+				// an argument that is not a method of the app is documented as "no override"
+				for nm, name := range mlist[ci] {
+					if name == t {
+						if nm != m {
+							r.eff[r.n] |= 2
+						}
+						m = nm
+					}
+				}
+			}
+			r.n++
 		}
-		r.n++
 	}
 	r.stM[r.n], r.stP[r.n] = uint8(m), uint8(p)
 	// End of chain. The statement fixes the reply only "when no endpoint matches".
@@ -332,17 +596,17 @@ func refDispatch(ci int, tbl []entry, m, p int) (r refResult) {
 		return r // an endpoint ran and passed on: unspecified
 	}
 	for _, e := range tbl {
-		if e.kind != kUSE && entryHandles(ci, e, m, p) {
+		if !kindIsUse(e.kind) && entryHandles(ci, e, m, p) {
 			return r // only reachable after an override: a same-method endpoint exists but is registered earlier: unspecified
 		}
 	}
 	r.spec, r.status = true, 404
-	for om := 0; om < nMeth; om++ {
+	for om := range mlist[ci] {
 		if om == m {
 			continue
 		}
 		for _, e := range tbl {
-			if e.kind != kUSE && entryHandles(ci, e, om, p) {
+			if !kindIsUse(e.kind) && entryHandles(ci, e, om, p) {
 				r.allow |= 1 << uint(om)
 				r.status = 405
 				break
